@@ -241,6 +241,11 @@ func genValRepr(r *Rand, oid uint32, fam string) Val {
 		// strings that look like the text form of other types are still strings
 		v.S = r.Pick("+Inf", "-Inf", "Infinity", "-Infinity", "NaN", "true", "f", "NULL", "\\N", "0", "-0", "\\x00", "infinity", "1e5")
 	}
+	if r.NulStr && fam == "text" && r.Chance(1, 12) {
+		// a Go string with NUL bytes in it: DataRow values are length-prefixed, so
+		// whatever the library does with such a value the frame must stay well formed
+		v.S = r.Pick("\x00", "a\x00b", "ab\x00", "\x00\x00x", r.Str(3)+"\x00"+r.Str(4))
+	}
 	if fam == "tstz" && r.Chance(1, 3) {
 		// the handler's time.Time lives in a zone of its own, also one that is
 		// not a whole number of hours away from UTC
